@@ -360,6 +360,9 @@ def run(ctx):
     lazy_rule(ctx)
     rotation_direction_rule(ctx)
     ctx.attempt(axis_guard_rule, ctx)
+    from ..shared import notify_last_rule as _notify_last_rule
+
+    ctx.attempt(_notify_last_rule, ctx, "R11.8")
     # the rotated laws (transversely isotropic, orthotropic, anisotropic) are P C P^T with P from Get_Pmat / Apply_Pmat: R10.2, R10.3
     from . import c10
 
@@ -390,6 +393,17 @@ def rotation_direction_rule(ctx):
                     r.ok(f"{f.qualname}: {norm_text(n)[:60]}")
                 else:
                     r.fail(f.qualname, f"direction:{f.name}", f.file, n.lineno, f.name, f"`{norm_text(n)[:80]}` rotates global -> material (P^T M P): the law is turned by the inverse rotation; aligned axes, isotropic tensors and quarter turns hide it")
+
+
+def exact_q(x):
+    from ..xeval import exact
+
+    x = exact(x)
+    if isinstance(x, MQ):
+        return x.rational()
+    if isinstance(x, Poly):
+        return x.const_value()
+    return Q(x)
 
 
 def axis_guard_rule(ctx):
@@ -427,10 +441,13 @@ def axis_guard_rule(ctx):
             continue
         r.instance(fn=init.qualname)
 
-        def verdict(a1, a2, init=init, ci=ci, axes=axes):
+        stored = {}
+
+        def verdict(a1, a2, init=init, ci=ci, axes=axes, stored=stored):
             I = Interp(repo)
             I.call_hook = hook
             obj = XObj(ci, {})
+            stored["obj"] = obj
             kwargs = {}
             for a in init.node.args.args[1:]:
                 if a.arg not in axes:
@@ -456,8 +473,24 @@ def axis_guard_rule(ctx):
             for a, b in (("inside the tolerance (cos = 2e-14)", "mirror image, inside (cos = -2e-14)"), ("outside the tolerance (cos = 2e-3)", "mirror image, outside (cos = -2e-3)")):
                 if groups[a]["1"] != groups[b]["1"]:
                     bad = f"unit axes {a}: {groups[a]['1']}; {b}: {groups[b]['1']} -- the guard is one-sided"
-        if bad is None and verdict(u, v) != "accepted":
-            bad = "exactly perpendicular unit axes are rejected"
+        if bad is None and verdict(sc(Q(3), u), sc(Q(1, 2), v)) != "accepted":
+            bad = "exactly perpendicular axes (lengths 3 and 1/2) are rejected"
+        if bad is None:
+            # the frame that is kept is the given one: each stored axis is a positive multiple of the axis it was given
+            # (a reversed axis is another material frame: the law of a material with normal / shear coupling changes)
+            for pname, given in zip(axes, (u, v)):
+                att = [k for k in stored["obj"].attrs if k.endswith("__" + pname) or k == pname]
+                if len(att) != 1:
+                    continue
+                val = list(XArray.from_nested(stored["obj"].attrs[att[0]]).data)
+                lam = None
+                for x, g in zip(val, given):
+                    if g != 0:
+                        lam = exact_q(x) / g
+                        break
+                if lam is None or lam <= 0 or any(exact_q(x) != lam * g for x, g in zip(val, given)):
+                    bad = f"given {pname} = {[str(3 * x) if pname == axes[0] else str(x / 2) for x in given]}, the constructor keeps {[str(exact_q(x)) for x in val]}: not a positive multiple of the given axis (another material frame)"
+                    break
         if bad:
             r.fail(init.qualname, "axis-guard", init.file, init.lineno, f"{cname}.__init__", bad)
         else:
